@@ -79,6 +79,29 @@ class DcUser:
         self.n = n
 
 
+class Net:
+    """An init argument whose default is None next to a plain one (world dmp: None-valued defaults at every level)."""
+
+    def __init__(self, width: int = 8, ckpt: Optional[str] = None):
+        self.width = width
+        self.ckpt = ckpt
+
+
+class WideNet(Net):
+    def __init__(self, depth: int = 2, tag: Optional[str] = None, **kwargs):
+        super().__init__(**kwargs)
+        self.depth = depth
+        self.tag = tag
+
+
+class Trn:
+    """Class group with a None-valued default; `steps` is a link source in world dmp."""
+
+    def __init__(self, steps: int = 3, resume: Optional[str] = None):
+        self.steps = steps
+        self.resume = resume
+
+
 class Src:
     def __init__(self, size: int = 2):
         self.size = size
